@@ -91,6 +91,25 @@ theorem contacted_forever (v : Variant) (cfg : Config) (target : Nat) (known : L
   rw [runL_init_q] at h
   exact h
 
+/-- `no_recontact` (rank): from every state reachable along a history, one more event never raises
+the rank of a candidate (NotContacted 3 > Waiting 2 > Unresponsive 1 > Failed / Succeeded 0) and
+never drops a candidate; only `NotContacted` candidates are handed out (`next_emit`), so a peer
+that has left `NotContacted` can never be handed out again. -/
+theorem rank_never_increases (v : Variant) (cfg : Config) (target : Nat) (known : List (Nat × Bool))
+    (evs : List Ev) (ev : Ev) :
+    ∀ e ∈ (runQ (withConfig v cfg target known) evs).peers,
+      ∃ e' ∈ (runQ (withConfig v cfg target known) (evs ++ [ev])).peers,
+        e'.key = e.key ∧ e'.dist = e.dist ∧ e'.state.rank ≤ e.state.rank := by
+  have hs := (linv_reach v cfg target known evs).sorted
+  rw [runL_init_q] at hs
+  rw [runQ_append]
+  exact step_rank_le hs ev
+
+/-- A request goes only to a candidate that is `NotContacted` at that moment. -/
+theorem request_only_to_not_contacted (q : Q) (now k : Nat) (h : (next q now).2 = .waiting (some k)) :
+    ∃ e ∈ q.peers, e.key = k ∧ e.state = .notContacted :=
+  (next_emit q now k h).2
+
 /-! ### termination -/
 
 /-- `terminates` (requests): a query never hands out more requests than the number of distinct
@@ -210,5 +229,84 @@ theorem pool_invariant (timeout : Nat) (evs : List PEv) (hw : NoWrap (Pool.new t
   | cons ev evs ih =>
     intro p hp hw
     exact ih _ (stepP_spec hp ev (noWrap_head hw)).1 (noWrap_tail hp hw)
+
+/-- The pool drives its queries only through `next` / `on_success` / `on_failure`: every query in
+the pool, and every query handed back by `poll` as `Finished` or `Timeout`, is in a state reached
+from its constructor by some history of such calls (`Reach`) — so all query-level theorems of C09
+and C10 (which hold for every history) apply to it, whatever the pool history and the visiting
+orders were. -/
+theorem pool_queries_reachable (timeout : Nat) (evs : List PEv) :
+    (∀ x ∈ (runP (Pool.new timeout) evs).queries, Reach x.q) ∧
+    (∀ o ∈ outsP (Pool.new timeout) evs, ∀ q, retQuery o = some q → Reach q) :=
+  reach_runP evs (Pool.new timeout) (by intro y hy; cases hy)
+
+/-! ### the termination measure -/
+
+/-- `terminates` (measure, `next`): the measure `Σ rank + 4·(N − known)` (`potential N`, rank
+NotContacted 3 > Waiting 2 > Unresponsive 1 > Failed/Succeeded 0, an id not yet known counts 4)
+never increases in `next` and strictly decreases whenever `next` hands out a request.  Holds in
+every state, for every `N`. -/
+theorem measure_next (N : Nat) (q : Q) (now : Nat) :
+    potential N (next q now).1 ≤ potential N q ∧
+    (∀ k, (next q now).2 = .waiting (some k) → potential N (next q now).1 < potential N q) :=
+  potential_next N q now
+
+/-- `terminates` (measure, `on_failure`): never increases, strictly decreases whenever the call
+has an effect. -/
+theorem measure_failure (N : Nat) (q : Q) (p : Nat) :
+    potential N (onFailure q p) ≤ potential N q ∧
+    (onFailure q p ≠ q → potential N (onFailure q p) < potential N q) :=
+  potential_failure N q p
+
+/-- `terminates` (measure, `on_success`): never increases, strictly decreases whenever the call
+has an effect — provided `N` bounds the number of candidates after the call (every newly learned
+id turns 4 units of budget into a `NotContacted` entry of rank 3).  Hence along any history whose
+ids come from a set of size `N`, at most `4·N` emitted requests / effective answers occur in total;
+`requests_bounded` gives the sharp bound `N` for the requests. -/
+theorem measure_success (N : Nat) (q : Q) (p : Nat) (closer : List (Nat × Bool))
+    (hN : (onSuccess q p closer).peers.length ≤ N) :
+    potential N (onSuccess q p closer) ≤ potential N q ∧
+    (onSuccess q p closer ≠ q → potential N (onSuccess q p closer) < potential N q) :=
+  potential_success N q p closer hN
+
+/-! ### non-vacuity: concrete histories -/
+
+private def exCfg : Config := ⟨2, 3, 10⟩
+private def exKnown : List (Nat × Bool) := [(5, true), (3, true), (9, false), (12, true)]
+/-- Three polls (the third hits the parallelism bound), an answer that reports a closer peer, a
+duplicate and the target itself, a failure, answers without news (the query stalls), an answer
+after the peer timeout, and a final poll. -/
+private def exEvs : List Ev :=
+  [.next 0, .next 0, .next 0, .success 3 [(1, true), (5, true), (0, false)], .next 1, .failure 5, .next 2,
+   .success 1 [], .next 20, .success 0 [(2, true)], .next 21, .next 40, .success 9 [], .next 41]
+
+/-- Six requests, all different, in this order (the initial list is cut to `num_results = 3`). -/
+example : requests (withConfig .closest exCfg 0 exKnown) exEvs = [3, 5, 0, 1, 9, 2] := by decide
+/-- With two requests in flight (`parallelism = 2`) the third poll is refused. -/
+example : (next (runQ (withConfig .closest exCfg 0 exKnown) (exEvs.take 2)) 0).2 = .waitingAtCapacity := by
+  decide
+example : (runQ (withConfig .closest exCfg 0 exKnown) (exEvs.take 2)).numWaiting = 2 := by decide
+/-- The history passes through the stalled phase and ends finished. -/
+example : (runQ (withConfig .closest exCfg 0 exKnown) (exEvs.take 10)).progress = .stalled := by decide
+example : (runQ (withConfig .closest exCfg 0 exKnown) exEvs).progress = .finished := by decide
+/-- The hypothesis of `parallelism_iterating` / `parallelism_issue` is satisfiable. -/
+example : (next (withConfig .predicate exCfg 0 exKnown) 0).2 = .waiting (some 3) := by decide
+/-- The measure really decreases along the example (N = 8 ≥ number of ids involved). -/
+example : potential 8 (runQ (withConfig .closest exCfg 0 exKnown) exEvs) <
+    potential 8 (withConfig .closest exCfg 0 exKnown) := by decide
+
+private def exPool : List PEv :=
+  [.add .closest exCfg 0 exKnown, .add .predicate ⟨1, 1, 5⟩ 7 [(6, true)],
+   .poll 0 [1, 0], .poll 0 [0, 1], .poll 0 [1, 0], .poll 0 [1, 0],
+   .success 1 6 [], .poll 1 [1, 0], .success 1 6 [], .poll 2 [0], .poll 60 [0, 1], .poll 61 [0], .failure 0 3]
+
+/-- Query 1 finishes, query 0 is cut off by the query timeout (50) — each handed back once. -/
+example : returned (Pool.new 50) exPool = [1, 0] := by decide
+example : NoWrap (Pool.new 50) exPool := by unfold NoWrap; decide
+/-- The hypotheses of `poll_timeout_removes` are satisfiable: at time 60 query 0 (started at 0)
+is past the timeout 50. -/
+example : ∃ x, (runP (Pool.new 50) (exPool.take 10)).get 0 = some x ∧ TimedOut 50 60 x := by
+  refine ⟨_, rfl, ?_⟩
+  unfold TimedOut; decide
 
 end Discv5.Query
